@@ -347,10 +347,10 @@ def body(chk):
                         'NameMap: string equality abstracted to identity of abstract names; alternate_lookup_key replaced by its contract (verified in the first two parts)',
                         'IndexMap modelled as an insertion-ordered association list',
                         'ordering of build metadata left uninterpreted (property says build metadata is ignored)']
-    chk.phase('semver model validation'); model_validation(chk)
-    chk.phase('alternate_lookup_key'); part_alt_key(chk, fns, decls)
-    chk.phase('are_semver_compatible'); part_compat(chk, fns, decls)
-    chk.phase('NameMap'); part_namemap(chk, fns, decls)
+    chk.part('semver model validation', model_validation, chk)
+    chk.part('alternate_lookup_key', part_alt_key, chk, fns, decls)
+    chk.part('are_semver_compatible', part_compat, chk, fns, decls)
+    chk.part('NameMap', part_namemap, chk, fns, decls)
 
 if __name__ == '__main__':
     harness.run_check('C15', body)
